@@ -29,7 +29,7 @@ ASSUMPTIONS = [
     "a peer FIN is not a write fault; a write into a transport the client is closing is one: sends are not placed at the very instant the FIN is delivered, and a message accepted while a close is still in progress (slow close under flow control) is not judged here",
     "messages whose lifetime ends within 0.1 s of the next connection are not judged (C02/C16 cover expiry)",
 ]
-PROBES = ["c01.accepted_while_closing", "c01.accepted_while_down", "c01.same_instant_sends", "c01.packet_id_wrapped", "c01.outage", "c01.stall", "c01.send_at_establish"]
+PROBES = ["c01.unencodable_in_front", "c01.accepted_while_closing", "c01.accepted_while_down", "c01.same_instant_sends", "c01.packet_id_wrapped", "c01.outage", "c01.stall", "c01.send_at_establish"]
 
 
 def budget(tier: str) -> int:
@@ -112,6 +112,14 @@ def generate(rng, index: int, tier: str) -> dict:
         burst_t = at
         sends.append({"at": at, "op": "user.send", "msg": d, "policy": pol, "yields": rng.choice([0, 0, 0, 1, 2, 5])})
     tl += sends
+    if sends and rng.random() < 0.1:
+        # a message the client accepts but cannot encode (documented: logged and skipped) right in front of an ordinary one:
+        # the messages behind it must not be held up or lost because of it, connected or not
+        victim = rng.choice(sends)
+        which = "struct"  # struct.error at encode time (a number that does not fit its protocol byte)
+        bad = {"kind": "group_control", "group": 300, "power": "on"} if gen == 4 else {"kind": "zone_control", "zones": [{"zone": 300, "power": "on"}]}
+        # same instant, ordered in front of the victim (the sort below is stable: timeline order is execution order within an instant)
+        tl.insert(tl.index(victim), {"at": victim["at"], "op": "user.send", "msg": bad, "policy": "idem", "unencodable": which})
     if rng.random() < 0.25 and not big:
         # the connection that flushes the buffered messages is under flow control from its first byte,
         # and further sends arrive while that flush is suspended
@@ -202,6 +210,9 @@ def judge(w: World, sc: dict, *, socket_level: bool = True):
     order = []
     call_by_id = {c["id"]: c for c in w.calls}
     for s in h.subs:
+        if call_by_id.get(s["id"], {}).get("step", {}).get("unencodable"):
+            probes["c01.unencodable_in_front"] = 1
+            continue  # accepted, cannot be encoded: nothing is owed to it (the ones behind it are judged as usual)
         if s["exc"] is not None:
             if s["tx"]:
                 V.append(viol("C01.sent_after_raise", {"sub": s["id"], "exc": s["exc"]}))
@@ -232,6 +243,8 @@ def judge(w: World, sc: dict, *, socket_level: bool = True):
             if not connected:
                 probes["c01.accepted_while_down"] = 1
         n = len(s["tx"])
+        if n == 0 and tstar is not None and tstar > sc.get("end", 1e18) - 0.25:
+            continue  # the connection it waits for comes up as the run ends: nothing observed, nothing judged
         if n > 1:
             V.append(viol("C01.duplicate", {"sub": s["id"], "msg": s["desc"], "times": [f["t"] for f in s["tx"]]}, n=min(n, 3)))
             continue
